@@ -45,6 +45,20 @@ PROPS = {
                  "and per (origin, epoch, sequence) for genuine updates by info_monotone/stale_is_noop"],
         assumptions=["suspected-duplicate notices bypass the epoch test by design: for them at-most-once holds per UpdateID only"],
     ),
+    "C07": dict(
+        lean_props="Receptor.Props.C07",
+        engines=[dict(engine="proto", pkg=NETC, test="TestVerifProto", n_quick=300, n_thorough=3000, timeout_quick=1500),
+                 dict(engine="wire", pkg=NETC, test="TestVerifWire", n_quick=150, n_thorough=1500),
+                 dict(engine="framer", pkg="pkg/framer", test="TestVerifFramer", n_quick=150, n_thorough=1500)],
+        corr_ops={"proto": ["session"], "wire": ["dec"], "framer": ["ops"]},
+        facts=["proto_empty_guard", "proto_ad_nil_guard", "proto_ping_guard", "proto_cost_guard", "proto_dispatch", "wire_min_len"],
+        trusted=["encoding/json decoding rules for routingUpdate / serviceAdvertisementFull (modelled over a JSON value tree; number "
+                 "literals are classified by strconv in the harness)",
+                 "memory exhaustion by huge inputs is not modelled",
+                 "the backends' own receive paths (UDP/TCP/websocket) hand any datagram, including length 0, to runProtocol: the "
+                 "framer part is covered by the framer engine, the socket parts are trusted"],
+        assumptions=["a session's datagrams are handled one at a time by its own goroutine (as runProtocol does)"],
+    ),
     "C09": dict(
         lean_props="Receptor.Props.C09",
         engines=[dict(engine="verify", pkg=NETC, test="TestVerifVerify", n_quick=150, n_thorough=2000),
